@@ -107,6 +107,62 @@ def run (ctx):
              "no reply-class message is sent" if not badsend else
              "%s needs no reply but the handler sends %s" % (mname, badsend[0][1]), (swmod, badsend[0][0]) if badsend else h, 'D2')
 
+  # ---- D2b nothing the handler evaluates eagerly on the request can definitely raise -------------------------------
+  # (an exception before the reply is caught by the connection's read loop and the request stays unanswered).  The
+  # request object's class is known from the handler naming convention; methods called on it are followed through the
+  # codec module and pox.lib.util, looking for definite bytes/str type errors (R-BYTES).
+  from .. import btypes
+  lofm = repo.mod('openflow.libopenflow_01'); utilm = repo.mod('lib.util')
+  def callees (f, cls_):
+    out = []
+    for c in calls_in(f.node, nested=True):
+      if isinstance(c.func, ast.Attribute) and norm(c.func.value) == 'self' and cls_ is not None:
+        m_ = cls_.find_method(c.func.attr)
+        if m_ is not None: out.append((m_, cls_))
+      elif isinstance(c.func, ast.Name):
+        r_ = f.module.lookup(c.func.id)
+        if hasattr(r_, 'node') and isinstance(getattr(r_, 'node', None), ast.FunctionDef): out.append((r_, None))
+    return out
+  def definite_error (f0, cls0):
+    seen = set(); work = [(f0, cls0, [f0.qual])]
+    while work:
+      f, cl, chain = work.pop()
+      if f.qual in seen or len(chain) > 6: continue
+      seen.add(f.qual)
+      sites = btypes.ord_of_bytes_elements(f.node)
+      if sites: return chain, f, sites[0]
+      for g_, c_ in callees(f, cl): work.append((g_, c_, chain + [g_.qual]))
+    return None
+  n_eager = 0
+  for mname, h in sorted(handlers.items()):
+    mcls = [m for m in msgs if m.name == mname][0].cls
+    req = h.params[1] if len(h.params) > 1 else None
+    if req is None: continue
+    for c in calls_in(h.node):
+      target = None
+      if isinstance(c.func, ast.Attribute) and norm(c.func.value) == req: target = mcls.find_method(c.func.attr)
+      elif isinstance(c.func, ast.Name) and c.func.id in ('str', 'repr') and c.args and norm(c.args[0]) == req: target = mcls.find_method('__str__') or mcls.find_method('show')
+      if target is None: continue
+      n_eager += 1
+      hit = definite_error(target, mcls)
+      ctx.ob('R-BYTES', h, "`%s` on the request cannot definitely raise before the reply" % norm(c)[:40], hit is None,
+             "no definite type error on the call chain" if hit is None else
+             "`%s` reaches %s via %s, where `%s` applies ord() to the elements of a bytes object (ints in Python 3): TypeError for any request with a non-empty body - "
+             "the handler dies before answering and the request gets no reply" % (norm(c)[:40], hit[1].qual, " -> ".join(hit[0]), norm(hit[2])), (swmod, c), 'D2')
+  ctx.stat('eager calls on the request object followed', n_eager)
+
+  # the connection's send() encodes and writes at once: a reply queued as an object and encoded later would reflect
+  # state changed by later requests of the same read (and a barrier reply could overtake earlier effects)
+  ofcon = swmod.classes.get('OFConnection')
+  if ofcon is not None and ofcon.find_method('send') is not None:
+    cs_ = ofcon.find_method('send'); ctx.analysed(cs_); gs_ = q.cfg_of(cs_)
+    wr = gs_.nodes_with_call(lambda c: call_name(c) == 'send' and isinstance(c.func, ast.Attribute) and 'io_worker' in norm(c.func.value))
+    ctx.floor('OFConnection.send: write site', len(wr), 1)
+    iv_ = gs_.interval(lambda n: n in wr)
+    ctx.ob('R-EFFECT', cs_, "every send() is written to the IO worker before it returns", iv_ is not None and iv_[0] >= 1 and iv_[1] <= 1,
+           "io_worker.send on every path, once" if iv_ is not None and iv_[0] >= 1 and iv_[1] <= 1 else
+           "some path through OFConnection.send returns without writing (write count %s): the message is parked and encoded later - replies holding live objects (ports, counters) then show state "
+           "produced by later requests, and reply order relative to effects is no longer the request order" % (iv_,), cs_, 'D5')
   # ---- D3 correlation ------------------------------------------------------
   for mname, h in sorted(handlers.items()):
     params = h.params
@@ -179,9 +235,18 @@ def run (ctx):
   sends = g.nodes_with_call(switchq.is_send)
   iv = g.interval(lambda n: n in sends)
   ctx.ob('R-EFFECT', se, "send_error transmits exactly one message", iv == (1, 1), "send count %s" % (iv,), se, 'D2')
-  xs = [st for t, v, st, k in q.stores_in(se.node) if isinstance(t, ast.Attribute) and t.attr == 'xid' and v is not None and norm(v) == 'ofp.xid']
-  ctx.ob('R-AGREE', se, "error message takes the xid of the offending request", bool(xs),
-         "err.xid = ofp.xid" if xs else "send_error no longer copies ofp.xid into the error", se, 'D3')
+  # decided by evaluation: with ofp.xid = 4242 the object handed to send() has xid 4242 on every path
+  okx = bool(sends)
+  seen_vals = []
+  for sn in sends:
+    c = [c for c in q.node_calls(sn) if switchq.is_send(c)][0]
+    if not c.args: okx = False; continue
+    e_ = ast.Attribute(value=c.args[0], attr='xid', ctx=ast.Load())
+    vals = q.values_at(repo, swmod, g, q.Env({'ofp': '<request>', 'ofp.xid': 4242}, [((lambda x: isinstance(x, ast.Call) and call_name(x) == 'pack'), b'<packed>')]), sn, e_, sw)
+    seen_vals.append(sorted(map(str, vals)))
+    if vals != {4242}: okx = False
+  ctx.ob('R-AGREE', se, "error message takes the xid of the offending request", okx,
+         "with ofp.xid = 4242 the sent error has xid 4242" if okx else "with ofp.xid = 4242 the error handed to send() has xid %s: the controller cannot pair the error with its request" % seen_vals, se, 'D3')
   # errors in OFConnection._error_handler
   ofc = repo.cls(switchq.SW, 'OFConnection')
   eh = ofc.find_method('_error_handler')
@@ -319,10 +384,11 @@ def _stats_request (ctx, repo, sw, h, stats_handlers, weight, spec):
   sends_after = [s for s in sends if s in after]
   goodg = bool(sends_after) and all(("%s is not None" % body) in q.fact_strs(g, s) for s in sends_after)
   iv_t = iv_f = None
-  tb = [b for b in g.nodes if b.kind == 'branch' and norm(b.label[0]) == '%s is not None' % body]
+  tb = [b for b in g.nodes if b.kind == 'branch' and norm(b.label[0]) in ('%s is not None' % body, '%s is None' % body)]
   for b in tb:
     iv = g.interval(weight, start=b)
-    if b.label[1]: iv_t = iv
+    notnone = b.label[1] if norm(b.label[0]).endswith('is not None') else (not b.label[1])
+    if notnone: iv_t = iv
     else: iv_f = iv
   good = goodg and iv_t == (1, 1) and iv_f == (0, 0)
   ctx.ob('R-EFFECT', h, "stats reply sent iff the handler returned a body", good,
@@ -335,6 +401,11 @@ def _stats_request (ctx, repo, sw, h, stats_handlers, weight, spec):
       for kw_, want in (('xid', req + '.xid'), ('type', req + '.type'), ('body', body)):
         v = kwarg(c, kw_)
         good = v is not None and norm(v) == want
+        if not good and v is not None and kw_ in ('xid', 'type'):
+          # through a local: decided by evaluation with distinct tokens for the request's fields
+          cn_ = q.enclosing_stmt_node(g, c)
+          tok = {req + '.xid': '<request xid>', req + '.type': '<request type>'}
+          good = q.values_at(repo, swmod, g, q.Env(tok), cn_, v, sw) == {tok[want]}
         ctx.ob('R-AGREE', h, "stats reply %s" % kw_, good, "%s=%s" % (kw_, want) if good else
                "ofp_stats_reply is built with %s=%s, expected %s" % (kw_, norm(v), want), (swmod, c), 'D3')
   # (c) each stats handler: value-returning paths send nothing, None-returning paths send exactly one error
